@@ -793,4 +793,256 @@ theorem vramByGPU_spec : ∀ (ids sizes : List Nat) (id : Nat),
         · left; exact h
         · right; exact ⟨k + 1, by simpa using h1, by simpa using h2⟩
 
+/-! ## Part 5: pickBestFullFitByLibrary -/
+
+theorem mem_insertDesc (x y : FGpu) : ∀ (l : List FGpu), y ∈ insertDesc x l ↔ y = x ∨ y ∈ l := by
+  intro l
+  induction l with
+  | nil => simp [insertDesc]
+  | cons a rest ih =>
+    simp only [insertDesc]
+    split
+    · simp
+    · simp only [List.mem_cons, ih]
+      constructor
+      · rintro (h | h | h)
+        · exact Or.inr (Or.inl h)
+        · exact Or.inl h
+        · exact Or.inr (Or.inr h)
+      · rintro (h | h | h)
+        · exact Or.inr (Or.inl h)
+        · exact Or.inl h
+        · exact Or.inr (Or.inr h)
+
+theorem mem_sortDesc (y : FGpu) (l : List FGpu) : y ∈ sortDesc l ↔ y ∈ l := by
+  unfold sortDesc
+  suffices h : ∀ (l acc : List FGpu),
+      y ∈ l.foldl (fun acc x => insertDesc x acc) acc ↔ y ∈ acc ∨ y ∈ l by
+    simpa using h l []
+  intro l
+  induction l with
+  | nil => intro acc; simp
+  | cons x rest ih =>
+    intro acc
+    simp only [List.foldl_cons, ih, mem_insertDesc, List.mem_cons]
+    constructor
+    · rintro ((h | h) | h)
+      · exact Or.inr (Or.inl h)
+      · exact Or.inl h
+      · exact Or.inr (Or.inr h)
+    · rintro (h | h | h)
+      · exact Or.inl (Or.inr h)
+      · exact Or.inl (Or.inl h)
+      · exact Or.inr h
+
+theorem length_insertDesc (x : FGpu) : ∀ (l : List FGpu), (insertDesc x l).length = l.length + 1 := by
+  intro l
+  induction l with
+  | nil => simp [insertDesc]
+  | cons a rest ih =>
+    simp only [insertDesc]
+    split <;> simp [ih]
+
+theorem length_sortDesc (l : List FGpu) : (sortDesc l).length = l.length := by
+  unfold sortDesc
+  suffices h : ∀ (l acc : List FGpu),
+      (l.foldl (fun acc x => insertDesc x acc) acc).length = acc.length + l.length by
+    simpa using h l []
+  intro l
+  induction l with
+  | nil => intro acc; simp
+  | cons x rest ih =>
+    intro acc
+    simp only [List.foldl_cons, ih, length_insertDesc, List.length_cons]
+    omega
+
+def DescSorted (l : List FGpu) : Prop := List.Pairwise (fun a b => b.gpu.free ≤ a.gpu.free) l
+
+theorem insertDesc_sorted (x : FGpu) : ∀ (l : List FGpu), DescSorted l → DescSorted (insertDesc x l) := by
+  intro l
+  induction l with
+  | nil => intro _; simp [insertDesc, DescSorted]
+  | cons a rest ih =>
+    intro h
+    unfold DescSorted at h ⊢
+    rw [List.pairwise_cons] at h
+    simp only [insertDesc]
+    split
+    · rename_i hlt
+      rw [List.pairwise_cons]
+      refine ⟨?_, List.pairwise_cons.mpr h⟩
+      intro b hb
+      simp only [List.mem_cons] at hb
+      rcases hb with rfl | hb
+      · omega
+      · have := h.1 b hb; omega
+    · rename_i hge
+      rw [List.pairwise_cons]
+      refine ⟨?_, ih h.2⟩
+      intro b hb
+      rw [mem_insertDesc] at hb
+      rcases hb with rfl | hb
+      · omega
+      · exact h.1 b hb
+
+theorem sortDesc_sorted (l : List FGpu) : DescSorted (sortDesc l) := by
+  unfold sortDesc
+  suffices h : ∀ (l acc : List FGpu), DescSorted acc →
+      DescSorted (l.foldl (fun acc x => insertDesc x acc) acc) by
+    exact h l [] (by simp [DescSorted])
+  intro l
+  induction l with
+  | nil => intro acc h; simpa using h
+  | cons x rest ih => intro acc h; exact ih _ (insertDesc_sorted x acc h)
+
+/-- a non-empty list of one `Library[_Variant]` key is its own single ByLibrary group -/
+theorem byLibrary_homog (k : Nat) : ∀ (l : List FGpu), l ≠ [] → (∀ m ∈ l, m.key = k) →
+    byLibrary l = [⟨k, l⟩] := by
+  have hstep : ∀ (l pre : List FGpu), (∀ m ∈ l, m.key = k) →
+      l.foldl (fun acc x => insertGroup x acc) [⟨k, pre⟩] = [⟨k, pre ++ l⟩] := by
+    intro l
+    induction l with
+    | nil => intro pre _; simp
+    | cons x rest ih =>
+      intro pre h
+      have hx : x.key = k := h x (by simp)
+      simp only [List.foldl_cons, insertGroup, hx, beq_self_eq_true, ↓reduceIte]
+      rw [ih (pre ++ [x]) (fun m hm => h m (by simp [hm]))]
+      simp
+  intro l hne h
+  cases l with
+  | nil => exact absurd rfl hne
+  | cons x rest =>
+    have hx : x.key = k := h x (by simp)
+    unfold byLibrary
+    simp only [List.foldl_cons, insertGroup, hx]
+    rw [hstep rest [x] (fun m hm => h m (by simp [hm]))]
+    simp
+
+theorem firstSingle_some (common : Inp) : ∀ (l : List FGpu) (g : FGpu),
+    firstSingle common l = some g → g ∈ l ∧ (predictFitAll common [g]).1 = true := by
+  intro l
+  induction l with
+  | nil => intro g h; simp [firstSingle] at h
+  | cons a rest ih =>
+    intro g h
+    simp only [firstSingle] at h
+    split at h
+    · rename_i hf
+      injection h with h
+      subst h
+      exact ⟨by simp, hf⟩
+    · obtain ⟨h1, h2⟩ := ih g h
+      exact ⟨by simp [h1], h2⟩
+
+theorem trySingles_some (commonOf : Nat → Inp) (sgl : List FGpu) : ∀ (ps : List Nat) (L : List FGpu) (p : Nat),
+    trySingles commonOf sgl ps = some (L, p) →
+    p ∈ ps ∧ ∃ g ∈ sgl, L = [g] ∧ (predictFitAll (commonOf p) L).1 = true := by
+  intro ps
+  induction ps with
+  | nil => intro L p h; simp [trySingles] at h
+  | cons q rest ih =>
+    intro L p h
+    simp only [trySingles] at h
+    split at h
+    · rename_i g hg
+      simp only [Option.some.injEq, Prod.mk.injEq] at h
+      obtain ⟨h1, h2⟩ := h
+      subst h1; subst h2
+      obtain ⟨hm, hf⟩ := firstSingle_some _ _ _ hg
+      exact ⟨by simp, g, hm, rfl, hf⟩
+    · obtain ⟨h1, h2⟩ := ih L p h
+      exact ⟨by simp [h1], h2⟩
+
+theorem tryAll_some (commonOf : Nat → Inp) (sgl : List FGpu) : ∀ (ps : List Nat) (L : List FGpu) (p : Nat),
+    tryAll commonOf sgl ps = some (L, p) →
+    p ∈ ps ∧ L = sgl ∧ (predictFitAll (commonOf p) L).1 = true := by
+  intro ps
+  induction ps with
+  | nil => intro L p h; simp [tryAll] at h
+  | cons q rest ih =>
+    intro L p h
+    simp only [tryAll] at h
+    split at h
+    · rename_i hf
+      simp only [Option.some.injEq, Prod.mk.injEq] at h
+      obtain ⟨h1, h2⟩ := h
+      subst h1; subst h2
+      exact ⟨by simp, rfl, hf⟩
+    · obtain ⟨h1, h2⟩ := ih L p h
+      exact ⟨by simp [h1], h2⟩
+
+/-- what `pickBestFullFitByLibrary` returns was fit-checked as returned: the returned list `L` (in
+    the returned order) passed `PredictServerFit` with the returned parallelism, and it is either the
+    whole sorted library group or one GPU of it. -/
+theorem pickFullGroups_some (commonOf : Nat → Inp) (tries : List Nat) (spread : Bool) :
+    ∀ (groups : List Group) (L : List FGpu) (p : Nat),
+    pickFullGroups commonOf tries spread groups = some (L, p) →
+    p ∈ tries ∧ (predictFitAll (commonOf p) L).1 = true ∧
+    ∃ g ∈ groups, (L = sortDesc g.members ∨ ∃ x ∈ sortDesc g.members, L = [x]) := by
+  intro groups
+  induction groups with
+  | nil => intro L p h; simp [pickFullGroups] at h
+  | cons g rest ih =>
+    intro L p h
+    simp only [pickFullGroups] at h
+    split at h
+    · rename_i r hr
+      injection h with h
+      subst h
+      split at hr
+      · cases hr
+      · obtain ⟨h1, x, hx, h2, h3⟩ := trySingles_some _ _ _ _ _ hr
+        exact ⟨h1, h3, g, by simp, Or.inr ⟨x, hx, h2⟩⟩
+    · split at h
+      · rename_i r hr
+        injection h with h
+        subst h
+        obtain ⟨h1, h2, h3⟩ := tryAll_some _ _ _ _ _ hr
+        exact ⟨h1, h3, g, by simp, Or.inl h2⟩
+      · obtain ⟨h1, h2, g', hg', h3⟩ := ih L p h
+        exact ⟨h1, h2, g', by simp [hg'], h3⟩
+
+theorem insertGroup_members (P : FGpu → Prop) (x : FGpu) (hx : P x) : ∀ (gs : List Group),
+    (∀ g ∈ gs, ∀ m ∈ g.members, P m) → ∀ g ∈ insertGroup x gs, ∀ m ∈ g.members, P m := by
+  intro gs
+  induction gs with
+  | nil =>
+    intro _ g hg m hm
+    simp [insertGroup] at hg
+    subst hg
+    simp at hm
+    subst hm
+    exact hx
+  | cons g0 rest ih =>
+    intro h g hg m hm
+    simp only [insertGroup] at hg
+    split at hg
+    · simp only [List.mem_cons] at hg
+      rcases hg with rfl | hg
+      · simp only [List.mem_append, List.mem_singleton] at hm
+        rcases hm with hm | rfl
+        · exact h g0 (by simp) m hm
+        · exact hx
+      · exact h g (by simp [hg]) m hm
+    · simp only [List.mem_cons] at hg
+      rcases hg with rfl | hg
+      · exact h _ (by simp) m hm
+      · exact ih (fun g' hg' => h g' (by simp [hg'])) g hg m hm
+
+theorem byLibrary_mem (l : List FGpu) : ∀ g ∈ byLibrary l, ∀ m ∈ g.members, m ∈ l := by
+  unfold byLibrary
+  suffices h : ∀ (l' : List FGpu) (acc : List Group), (∀ m ∈ l', m ∈ l) →
+      (∀ g ∈ acc, ∀ m ∈ g.members, m ∈ l) →
+      ∀ g ∈ l'.foldl (fun acc x => insertGroup x acc) acc, ∀ m ∈ g.members, m ∈ l by
+    exact h l [] (fun m hm => hm) (by simp)
+  intro l'
+  induction l' with
+  | nil => intro acc _ h; simpa using h
+  | cons x rest ih =>
+    intro acc hl h
+    simp only [List.foldl_cons]
+    exact ih _ (fun m hm => hl m (by simp [hm]))
+      (insertGroup_members (· ∈ l) x (hl x (by simp)) acc h)
+
 end OllamaVerif.Memory
